@@ -276,6 +276,17 @@ Json gen_c06_cap(sim::Rng& rng, int tier, long size_cap)
     p["conns"] = conns;
     p["faults"] = gen_faults(rng, true);
     gen_sched(rng, p, 3000);
+    // The step budget exists to end runs that spin. Moving a megabyte through a 64-byte socket buffer in 16-byte
+    // segments legitimately takes several hundred thousand decision points, so the budget follows the work.
+    {
+        double segments = 0;
+        for (size_t i = 0; i < conns.size(); ++i) {
+            const Json& net = conns.at(i).get("net");
+            double unit = static_cast<double>(std::max<i64>(16, std::min<i64>(std::min<i64>(net.num("sndbuf", 65536), net.num("rcvbuf", 65536)), net.num("mss", 1460))));
+            for (size_t k = 0; k < conns.at(i).get("cmds").size(); ++k) segments += static_cast<double>(conns.at(i).get("cmds").at(k).num("size")) / unit + 1;
+        }
+        p["sched"]["max_steps"] = static_cast<long long>(400000 + 40.0 * segments);
+    }
     return p;
 }
 
